@@ -1024,9 +1024,20 @@ ares_status_t ares_buf_split_str_array(ares_buf_t          *buf,
     ares_buf_t  *lbuf   = *bufptr;
     char        *str    = NULL;
 
-    status = ares_buf_fetch_str_dup(lbuf, ares_buf_len(lbuf), &str);
-    if (status != ARES_SUCCESS) {
-      goto done;
+    if (ares_buf_len(lbuf) == 0) {
+      /* Blank section, only present with ARES_BUF_SPLIT_ALLOW_BLANK.
+       * ares_buf_fetch_str_dup() requires a non-zero length like the rest of
+       * the fetch family, so produce the empty string here. */
+      str = ares_strdup("");
+      if (str == NULL) {
+        status = ARES_ENOMEM; /* LCOV_EXCL_LINE: OutOfMemory */
+        goto done;            /* LCOV_EXCL_LINE: OutOfMemory */
+      }
+    } else {
+      status = ares_buf_fetch_str_dup(lbuf, ares_buf_len(lbuf), &str);
+      if (status != ARES_SUCCESS) {
+        goto done;
+      }
     }
 
     status = ares_array_insertdata_last(*arr, &str);
